@@ -490,7 +490,14 @@ func (b *Blockchain) EventFilter(
 
 // RevertHead reverts the head block
 func (b *Blockchain) RevertHead() error {
-	return b.stateBackend.RevertHead()
+	if err := b.stateBackend.RevertHead(); err != nil {
+		return err
+	}
+	// Reverting across an index-window boundary re-opens a window that was already persisted
+	// and possibly cached; its cached copy would keep the reverted blocks' blooms (and miss
+	// the blooms of the blocks that replace them).
+	b.cachedFilters.Reset()
+	return nil
 }
 
 func (b *Blockchain) GetReverseStateDiff() (core.StateDiff, error) {
